@@ -9,11 +9,13 @@ from ..simkit import ADDRS, FakeTransport, Sim, hdr, service
 from .c01 import payload
 
 PID = "C16"
+# senders 3 and 4: an IPv4 client seen through a dual-stack socket (IPv4-mapped address) and a link-local peer with a scope id
+SENDERS = ADDRS + [("::ffff:10.0.0.2", 40000, 0, 0), ("fe80::1", 30490, 0, 3)]
 RULE = (
     "cases = a SimpleService with 1..3 registered methods whose handlers return bytes (any length), return None or raise "
     "MalformedMessageError, receiving 1..4 messages over all combinations of service id / interface version / method id "
     "(equal to the service's, off by one, random), every message type, every return code, random client/session ids, "
-    "payload 0..300 bytes, unicast or multicast, delivered through message_received or as bytes (several per datagram) "
+    "payload 0..300 bytes, unicast or multicast, from 5 senders (IPv4, IPv6, an IPv4-mapped IPv6 address, a link-local address with scope id), delivered through message_received or as bytes (several per datagram) "
     "through datagram_received; replies decoded by the independent codec. non-trivial = a message failing >= 2 checks, "
     "or REQUEST_NO_RETURN, or a handler that rejects or returns None; distinct = distinct case JSON"
 )
@@ -31,7 +33,7 @@ def _msg(draw):
         svc=draw(st.sampled_from([SID, SID, SID, SID + 1, 0, 0xFFFF])), iv=draw(st.sampled_from([VER, VER, VER, VER + 1, 0, 0xFF])),
         meth=draw(st.sampled_from([1, 1, 2, 3, 4, 0x8001, 0xFFFF])), mt=draw(st.sampled_from(wire.MESSAGE_TYPES + (0, 0, 1))),
         rc=draw(st.sampled_from(wire.RETURN_CODES + (0, 0, 0, 0))), cli=draw(st.integers(0, 0xFFFF)), ses=draw(st.integers(0, 0xFFFF)),
-        plen=draw(st.sampled_from([0, 1, 8, 300])), mc=draw(st.sampled_from([False, False, False, True])), src=draw(st.integers(0, 2)))
+        plen=draw(st.sampled_from([0, 1, 8, 300])), mc=draw(st.sampled_from([False, False, False, True])), src=draw(st.sampled_from([0, 1, 2, 0, 1, 2, 3, 4])))
 
 
 @st.composite
@@ -113,7 +115,7 @@ def run_case(case):
             svc.register_method(mid, handler)
 
         def deliver(group):
-            a = ADDRS[group[0]["src"] % len(ADDRS)]
+            a = SENDERS[group[0]["src"] % len(SENDERS)]
             mc = group[0]["mc"]
             encs = [wire.encode_someip(m["svc"], m["meth"], m["cli"], m["ses"], m["iv"], m["mt"], m["rc"], payload(m["plen"], 1)) for m in group]
             if case.get("via") == "obj":
